@@ -101,7 +101,11 @@ fn run_case_inner(case: &Case) -> (Vec<(String, String)>, Info) {
             let mut cur = b.previous_block_hash;
             while let Some(nb) = d.node.chain.blocks.get(&cur) {
                 if nb.in_longest_chain {
-                    if tip_id.saturating_sub(nb.id) > gp {
+                    // F42: (1) the fork point lies more than a genesis period below the tip, or (2) the
+                    // candidate segment is longer than two genesis periods, so that purging - which runs
+                    // while the candidate chain is still being wound - removes the old chain's blocks
+                    // before a late candidate block fails and the roll-back needs them
+                    if tip_id.saturating_sub(nb.id) > gp || b.id.saturating_sub(nb.id) > 2 * gp {
                         info.deep_fork_seen = true;
                     }
                     break;
